@@ -13,3 +13,15 @@ GridProp(
             "for all x, u, w, g: jvp-of-jvp == D2f[u,w]; <vjp-of-jvp, w> == <jvp-of-vjp, u> == <vjp-of-vjp(u), w> == <g, D2f[u,w]> (hence the three Hessian-vector products agree and the Hessian is symmetric); queries split over unit directions by multilinearity"],
     selftest=False,
 ).export(globals())
+
+_grid_main = main
+
+
+def main(tier, only=None):
+    """the grid check, plus the float64 probe of the LAPACK-backed primitives (outside the symbolic engine)"""
+    import os
+    from .. import runner as _r
+
+    os.environ["VF_EXTRA_RESULTS"] = "vf.props.lapack_probe"
+    return _grid_main(tier, only=only)
+
